@@ -174,6 +174,11 @@ fn corpus() -> Vec<Gen> {
         g("import \"pe\"\nrule t {\n  condition:\n    pe.is_dll() == 0\n}\n", vec!["bool-int", "function-call"]),
         g("import \"pe\"\nrule t {\n  condition:\n    0 == pe.is_dll()\n}\n", vec!["bool-int", "function-call", "const-on-left"]),
         g("import \"hash\"\nrule t {\n  condition:\n    hash.md5(0, filesize) == \"D41D8CD98F00B204E9800998ECF842\\\"E\"\n}\n", vec!["case-constraint"]),
+        // regression cases of the repaired defects (84ef5faa, 06e06e0e, 2bbcf270)
+        g("import \"pe\"\nrule t {\n  condition:\n    1 == pe.is_dll()\n}\n", vec!["bool-int", "function-call", "const-on-left"]),
+        g("import \"math\"\nrule t {\n  condition:\n    math.in_range(math.abs(filesize - 7), 0, 2) == 0\n}\n", vec!["bool-int", "function-call"]),
+        g("import \"hash\"\nrule t {\n  condition:\n    \"D41D8CD98F00B204E9800998ECF842\\\\E\" == hash.md5(0, filesize)\n}\n", vec!["case-constraint", "const-on-left"]),
+        g("import \"pe\"\nimport \"pe\"\nimport \"hash\"\nrule t {\n  strings:\n    $a = { 61 22 5C }\n    $b = { 11 [1-2] [3-4] 22 }\n  condition:\n    $a and $b and pe.is_dll() == 0 == 1 and 0 == pe.is_pe and hash.md5(0, filesize) == \"D41D8CD98F00B204E9800998ECF842\\\"E\"\n}\n", vec!["bool-int", "nested", "function-call", "case-constraint", "duplicate-import", "hex-as-text", "consecutive-jumps"]),
         g("rule t { condition: true }\n", vec!["no-diagnostic"]),
     ]
 }
@@ -353,7 +358,7 @@ pub fn run(args: &[String]) -> i32 {
         if c.patches.len() >= 1 { distinct.insert(g.src.clone()); }
         // the real tool on a temporary copy: directed at the interesting cases first
         let mut yr_res: Option<(bool, Vec<u8>)> = None;
-        if let Some(y) = &yr { if yr_done < n_yr && (class != "none" || c.patches.len() >= 2 || rng.chance(1, 3) || index <= 8) {
+        if let Some(y) = &yr { if yr_done < n_yr && (class != "none" || c.patches.len() >= 2 || rng.chance(1, 3) || index <= 13) {
             yr_res = run_yr(y, &tmp, src); if yr_res.is_some() { yr_done += 1; stats.inc("yr_runs"); if !yr_res.as_ref().unwrap().0 { stats.inc("yr_failed_exit"); } }
         } }
         let tb: Vec<usize> = token_boundaries(src).into_iter().collect();
